@@ -1,5 +1,6 @@
 SPECIFICATION Spec
 CONSTANTS
+  Small = TRUE
   EmitOn = FALSE
 INVARIANT TsRestoredWhenIdle
 INVARIANT OffsetIsRelativeStart
